@@ -7,7 +7,7 @@ for p in sorted(glob.glob('/verif/seeded/*/meta.json')):
     first='caught' if m.get('detected') else '**missed**'
     now=('caught: `'+'`, `'.join(s[:70] for s in fr.get('signatures',[])[:2])+'`') if fr.get('detected') else ('**not caught**' if fr else 'n/a')
     esc=lambda s: str(s).replace('|','\\|').replace('\n',' ')
-    rows.append(f"| {m['property']} | {esc(m.get('needs_to_manifest','(see demo.py)'))} | {first} | {esc(m.get('strengthening','–'))} | {esc(now)} |")
+    rows.append(f"| {os.path.basename(os.path.dirname(p))} | {esc(m.get('needs_to_manifest','(see demo.py)'))} | {first} | {esc(m.get('strengthening','–'))} | {esc(now)} |")
 table="| seed | what it needs to manifest | first verdict | what was strengthened | final run against the current check (`tools/seed_regress.sh`) |\n|---|---|---|---|---|\n"+"\n".join(rows)
 d=open('/verif/DESIGN.md').read()
 a,b='<!-- SEED-TABLE-BEGIN -->','<!-- SEED-TABLE-END -->'
